@@ -76,13 +76,15 @@ Example C34_nonvacuous :
     brun r0 (firstn 5 evs) = Ok (mkRbf (splice bf_new 0 a0) 256 (Some (256, 6)) 256 false) /\
     contains_id f [7; 6; 5; 4; 3; 2; 1; 0; 2401; 2402] = Ok true.
 Proof.
-  eexists. eexists. split; [reflexivity|]. split.
-  - cbn [disciplined]. repeat split; try (vm_compute; intuition congruence); try exact I.
-    + intros off [H|[]] _. inversion H; subst. vm_compute. reflexivity.
-    + intros off [H|[H|[]]] _; inversion H; subst. vm_compute. reflexivity.
-    + intros off [H|[H|[]]] L; inversion H; subst. vm_compute in L. discriminate.
-    + intros off [H|[H|[]]] _; inversion H; subst. vm_compute. reflexivity.
-    + intros off [H|[H|[]]] _; inversion H; subst. vm_compute. reflexivity.
+  intros f a0 a1 evs. eexists. eexists. split; [reflexivity|]. split.
+  - unfold evs.
+    step_disc. split; [intros H; destruct H|].
+    step_disc. split; [solve_ans|].
+    step_disc. split; [intros H; vm_compute in H; intuition congruence|].
+    step_disc. split; [solve_ans|].
+    step_disc. split; [solve_ans|].
+    step_disc. split; [solve_ans|].
+    step_disc. split; [solve_ans|]. exact I.
   - vm_compute. repeat split.
 Qed.
 
